@@ -702,3 +702,176 @@ def search_literal_text(drv, rng, budget):
         if got != "ok " + str(v):
             return {"call": "<U256 as Display>::fmt", "input": {"value": v}, "op": ["u256_display", "%064x" % v], "expected": "ok " + str(v), "observed": got}
     return None
+
+
+# ---------------------------------------------------------------- C14 debug symbols
+def norm_ws(txt):
+    """debug.rs remove_excess_whitespace: drop newlines, collapse runs of spaces (and leading spaces)"""
+    out, last_space = "", True
+    for ch in txt:
+        if ch == " ":
+            if last_space: continue
+            last_space = True; out += ch
+        elif ch == "\n":
+            continue
+        else:
+            last_space = False; out += ch
+    return out
+
+
+@searcher("debugsym/")
+def search_debug(drv, rng, budget):
+    """programs with 1-8 tracked calls (assert!, panic! on an untaken branch, unwrap, unwrap_left/right, dbg!, jets) with random
+    spacing: the debug build succeeds exactly when the plain build does (also for failing programs), the plain build carries no
+    marker, every marker resolves to the source text and kind of exactly one call, distinct call sites get distinct markers"""
+    for it in range(min(budget, 200)):
+        calls = []      # (text-as-written, kind)
+        lines = ["    let a: u8 = %d;" % rng.randrange(200)]
+        fail = rng.random() < 0.3
+        sp = lambda: " " * rng.randint(1, 3)
+        n = rng.randint(1, 8)
+        for k in range(n):
+            c = rng.randrange(6)
+            v = "x%d" % k
+            if c == 0:
+                inner = "jet::eq_8(a,%sa)" % sp()
+                t = "assert!(%s)" % inner
+                calls += [(inner, "Jet"), (t, "Assert")]
+                lines.append("    %s;" % t)
+            elif c == 1:
+                t = "unwrap(Some(a))" if rng.random() < 0.5 else "unwrap(%sSome(a))" % sp()
+                calls.append((t, "Unwrap")); lines.append("    let %s: u8 = %s;" % (v, t))
+            elif c == 2:
+                t = "unwrap_left::<u16>(Left(a))"
+                calls.append((t, "UnwrapLeft")); lines.append("    let %s: u8 = %s;" % (v, t))
+            elif c == 3:
+                t = "unwrap_right::<u16>(Right(a))"
+                calls.append((t, "UnwrapRight")); lines.append("    let %s: u8 = %s;" % (v, t))
+            elif c == 4:
+                arg = "(a,%s%d)" % (sp(), k)
+                calls.append((arg, "Debug")); lines.append("    let %s: (u8, u8) = dbg!(%s);" % (v, arg))
+            else:
+                t = "jet::add_8(a,%s%d)" % (sp(), k)
+                calls.append((t, "Jet")); lines.append("    let %s: (bool, u8) = %s;" % (v, t))
+        if fail:
+            inner = "jet::eq_8(a, %d)" % 201
+            t = "assert!(%s)" % inner
+            calls += [(inner, "Jet"), (t, "Assert")]
+            lines.append("    %s;" % t)
+        src = "fn main() {\n" + "\n".join(lines) + "\n}\n"
+        got = drv.call("debug_info", hx(src), hx(""))
+        bad = None
+        if not got.startswith("ok "):
+            bad = "both builds compile"
+        else:
+            f = dict(p.split("=", 1) for p in got.split(" ")[1:])
+            markers = bytes.fromhex(f["markers"]).decode().split("\x1e") if f["markers"] else []
+            cmrs = f["cmrs"].split(",") if f["cmrs"] else []
+            want = sorted("%s|%s" % (norm_ws(t), k) for t, k in calls)
+            if f["plain"] != f["debug"]:
+                bad = "debug build succeeds exactly when the plain build does"
+            elif f["plain"] != ("exec-fail" if fail else "ok"):
+                bad = "program outcome"
+            elif f["plain_markers"] != "0":
+                bad = "plain build carries no debug marker"
+            elif sorted(markers) != want:
+                bad = "markers resolve to the text and kind of the program's calls: expected %r" % want
+            elif len(set(cmrs)) != len(cmrs):
+                bad = "distinct call sites get distinct markers"
+        if bad:
+            return {"call": "CompiledProgram::new(.., debug symbols on/off)", "input": {"program": src}, "op": ["debug_info", hx(src), hx("")],
+                    "expected": bad, "observed": got[:400]}
+    return None
+
+
+# ---------------------------------------------------------------- C05 witnesses
+@searcher("witness/")
+def search_witness(drv, rng, budget):
+    """programs declaring 1-4 witnesses of random types (depth <= 2): satisfy succeeds with well-typed values and each
+    witness::NAME evaluates to the supplied value (checked by casting to a bit tuple is avoided: equality through jets for
+    integers, structural for the rest via a round trip program); a value of another type under a declared name is rejected;
+    extra names the program does not declare are ignored"""
+    names = ["A", "B", "C", "D"]
+    int_tys = [8, 16, 32, 64]
+    for it in range(min(budget, 150)):
+        k = rng.randint(1, 4)
+        decls, body, wit = [], [], []
+        for nm in names[:k]:
+            bits = rng.choice(int_tys)
+            v = rng.randrange(2 ** bits)
+            body.append("    assert!(jet::eq_%d(witness::%s, %d));" % (bits, nm, v))
+            wit.append((nm, "u%d" % bits, str(v)))
+        # an unused, undeclared name of arbitrary type is ignored
+        extra = [("ZZ", "(u8, bool)", "(1, true)")] if rng.random() < 0.5 else []
+        src = "fn main() {\n" + "\n".join(body) + "\n}\n"
+        mod = "mod witness {\n" + "\n".join("    const %s: %s = %s;" % w for w in wit + extra) + "\n}"
+        got = drv.call("run", hx(src), hx(""), hx(mod), "0")
+        if got != "ok":
+            return {"call": "satisfy with well-typed witnesses", "input": {"program": src, "witness": mod}, "op": ["run", hx(src), hx(""), hx(mod), "0"], "expected": "ok", "observed": got}
+        # same values, one declared name at a different type: must be rejected by satisfy (not reach the Bit Machine)
+        j = rng.randrange(k)
+        nm, ty, val = wit[j]
+        other = rng.choice([t for t in ("u8", "u16", "u32", "u64", "(u8, u8)", "bool") if t != ty])
+        oval = {"bool": "true", "(u8, u8)": "(1, 2)"}.get(other, "1")
+        wit2 = list(wit); wit2[j] = (nm, other, oval)
+        mod2 = "mod witness {\n" + "\n".join("    const %s: %s = %s;" % w for w in wit2 + extra) + "\n}"
+        got = drv.call("run", hx(src), hx(""), hx(mod2), "0")
+        if not got.startswith("satisfy-err"):
+            return {"call": "satisfy with an ill-typed witness", "input": {"program": src, "witness": mod2}, "op": ["run", hx(src), hx(""), hx(mod2), "0"], "expected": "satisfy-err", "observed": got}
+        # a wrong VALUE of the right type must reach the program and make the assertion fail (delivery to the right name)
+        if k >= 2:
+            a, b = rng.sample(range(k), 2)
+            if wit[a][1] == wit[b][1] and wit[a][2] != wit[b][2]:
+                wit3 = list(wit); wit3[a] = (wit[a][0], wit[a][1], wit[b][2]); wit3[b] = (wit[b][0], wit[b][1], wit[a][2])
+                mod3 = "mod witness {\n" + "\n".join("    const %s: %s = %s;" % w for w in wit3) + "\n}"
+                got = drv.call("run", hx(src), hx(""), hx(mod3), "0")
+                if not got.startswith("exec-fail"):
+                    return {"call": "satisfy with two witness values swapped", "input": {"program": src, "witness": mod3}, "op": ["run", hx(src), hx(""), hx(mod3), "0"], "expected": "exec-fail", "observed": got}
+    return None
+
+
+# ---------------------------------------------------------------- C12 templates
+@searcher("template/")
+def search_template(drv, rng, budget):
+    """templates with 1-3 parameters: instantiation with matching arguments behaves like literal substitution; a missing
+    argument or an argument of another type is rejected; extra arguments are ignored"""
+    for it in range(min(budget, 150)):
+        k = rng.randint(1, 3)
+        ps = []
+        for nm in ["P", "Q", "R"][:k]:
+            bits = rng.choice([8, 16, 32, 64])
+            ps.append((nm, bits, rng.randrange(2 ** bits)))
+        body = "\n".join("    assert!(jet::eq_%d(param::%s, %d));" % (b, n, v) for n, b, v in ps)
+        # a parameter may be used more than once, at the same type
+        n0, b0, v0 = ps[0]
+        body += "\n    let again: u%d = param::%s;\n    assert!(jet::eq_%d(again, %d));" % (b0, n0, b0, v0)
+        src = "fn main() {\n" + body + "\n}\n"
+        def mod(items): return "mod param {\n" + "\n".join("    const %s: %s = %s;" % it for it in items) + "\n}"
+        args = [(n, "u%d" % b, str(v)) for n, b, v in ps]
+        extra = [("UNUSED", "bool", "true")]
+        got = drv.call("run", hx(src), hx(mod(args + extra)), hx(""), "0")
+        if got != "ok":
+            return {"call": "instantiate with matching arguments (+ an extra one)", "input": {"program": src, "arguments": mod(args + extra)}, "op": ["run", hx(src), hx(mod(args + extra)), hx(""), "0"], "expected": "ok", "observed": got}
+        lit = src
+        for n, b, v in ps:
+            lit = lit.replace("param::%s" % n, str(v))
+        got = drv.call("run", hx(lit), hx(""), hx(""), "0")
+        if got != "ok":
+            return {"call": "program with the arguments written literally", "input": {"program": lit}, "op": ["run", hx(lit), hx(""), hx(""), "0"], "expected": "ok", "observed": got}
+        j = rng.randrange(k)
+        missing = args[:j] + args[j + 1:]
+        got = drv.call("run", hx(src), hx(mod(missing + extra)), hx(""), "0")
+        if not got.startswith("compile-err"):
+            return {"call": "instantiate with a missing argument", "input": {"program": src, "arguments": mod(missing + extra)}, "op": ["run", hx(src), hx(mod(missing + extra)), hx(""), "0"], "expected": "compile-err", "observed": got}
+        n, ty, v = args[j]
+        other = rng.choice([t for t in ("u8", "u16", "u32", "u64") if t != ty])
+        wrong = list(args); wrong[j] = (n, other, "1")
+        got = drv.call("run", hx(src), hx(mod(wrong)), hx(""), "0")
+        if not got.startswith("compile-err"):
+            return {"call": "instantiate with an argument of another type", "input": {"program": src, "arguments": mod(wrong)}, "op": ["run", hx(src), hx(mod(wrong)), hx(""), "0"], "expected": "compile-err", "observed": got}
+        # a different VALUE must change behaviour like the literal would
+        wrongv = list(args); wrongv[j] = (n, ty, str((int(v) + 1) % 200))
+        got = drv.call("run", hx(src), hx(mod(wrongv)), hx(""), "0")
+        if not got.startswith("exec-fail"):
+            return {"call": "instantiate with another value", "input": {"program": src, "arguments": mod(wrongv)}, "op": ["run", hx(src), hx(mod(wrongv)), hx(""), "0"], "expected": "exec-fail", "observed": got}
+    return None
